@@ -30,6 +30,7 @@ import (
 	"bytes"
 	"crypto/sha256"
 	"encoding/hex"
+	"encoding/json"
 	"fmt"
 	"math/big"
 	"os"
@@ -612,6 +613,11 @@ func main() {
 	if v := lib.EnvInt("VERIF_N", 0); v > 0 {
 		perType = int(v)
 	}
+	if mode == "replay" {
+		// deterministic re-run of the collision search and of the quorum / effect scenarios for this seed;
+		// every monitor failure is printed (see the end of main)
+		perType, pairBases, schedules = 0, 3, 4
+	}
 
 	// ---------------- phase 1
 	var items []string
@@ -695,7 +701,7 @@ func main() {
 				}
 				pairs = append(pairs, pairT{ct: ct, a: base, b: v, kind: f.Name})
 			}
-			// integers that agree modulo 2^64 / 2^256 (a hash of a truncated amount would confuse them)
+			// integers that agree modulo 2^64 / 2^128 (a hash of a truncated amount would confuse them)
 			for _, f := range ct.Fields {
 				if f.Kind != "int" || extract.IsIrrelevant(f.Name) {
 					continue
@@ -704,7 +710,10 @@ func main() {
 				if cur.IsNil() || cur.IsNegative() {
 					continue
 				}
-				for _, sh := range []uint{64, 256} {
+				for _, sh := range []uint{64, 128} {
+					if cur.BigInt().BitLen() > 200 {
+						continue
+					}
 					v := clone(ct, base)
 					fieldOf(v, f.Name).Set(reflect.ValueOf(sdkmath.NewIntFromBigInt(new(big.Int).Add(cur.BigInt(), new(big.Int).Lsh(big.NewInt(1), sh)))))
 					pairs = append(pairs, pairT{ct: ct, a: base, b: v, kind: fmt.Sprintf("%s+2^%d", f.Name, sh)})
@@ -884,4 +893,11 @@ func main() {
 	}
 	memoShowcase(rep, seed)
 	rep.Write()
+	if mode == "replay" {
+		for _, f := range rep.Failures {
+			b, _ := json.MarshalIndent(f.Replay, "  ", " ")
+			fmt.Printf("%s\n  %s\n  %s\n\n", f.Sig, f.What, b)
+		}
+		fmt.Printf("%d monitor failures reproduced with seed %d\n", len(rep.Failures), seed)
+	}
 }
